@@ -282,14 +282,33 @@ mod kani_c11 {
     }
     #[cfg(all(feature = "socket-udp", feature = "proto-ipv6"))]
     #[kani::proof] #[kani::stub(crate::wire::UdpRepr::parse, udp_parse_any)] #[kani::stub(crate::wire::TcpRepr::parse, tcp_parse_any)] #[kani::unwind(20)]
+    #[kani::stub(crate::iface::interface::InterfaceInner::process_nxt_hdr, super::ipv6::kani_c11_v6::nxt_hdr_not_called)] #[kani::stub(crate::iface::interface::InterfaceInner::process_hopbyhop, super::ipv6::kani_c11_v6::hbh_not_called)]
     fn c11_process_ipv6_filters_src_unspecified() { ipv6_filters_case(0); }
     #[cfg(all(feature = "socket-udp", feature = "proto-ipv6"))]
     #[kani::proof] #[kani::stub(crate::wire::UdpRepr::parse, udp_parse_any)] #[kani::stub(crate::wire::TcpRepr::parse, tcp_parse_any)] #[kani::unwind(20)]
+    #[kani::stub(crate::iface::interface::InterfaceInner::process_nxt_hdr, super::ipv6::kani_c11_v6::nxt_hdr_not_called)] #[kani::stub(crate::iface::interface::InterfaceInner::process_hopbyhop, super::ipv6::kani_c11_v6::hbh_not_called)]
     fn c11_process_ipv6_filters_src_multicast() { ipv6_filters_case(1); }
     #[cfg(all(feature = "socket-udp", feature = "proto-ipv6"))]
     #[kani::proof] #[kani::stub(crate::wire::UdpRepr::parse, udp_parse_any)] #[kani::stub(crate::wire::TcpRepr::parse, tcp_parse_any)] #[kani::unwind(20)]
+    #[kani::stub(crate::iface::interface::InterfaceInner::process_nxt_hdr, super::ipv6::kani_c11_v6::nxt_hdr_not_called)] #[kani::stub(crate::iface::interface::InterfaceInner::process_hopbyhop, super::ipv6::kani_c11_v6::hbh_not_called)]
     fn c11_process_ipv6_filters_dst_foreign_unicast() { ipv6_filters_case(2); }
     #[cfg(all(feature = "socket-udp", feature = "proto-ipv6"))]
     #[kani::proof] #[kani::stub(crate::wire::UdpRepr::parse, udp_parse_any)] #[kani::stub(crate::wire::TcpRepr::parse, tcp_parse_any)] #[kani::unwind(20)]
+    #[kani::stub(crate::iface::interface::InterfaceInner::process_nxt_hdr, super::ipv6::kani_c11_v6::nxt_hdr_not_called)] #[kani::stub(crate::iface::interface::InterfaceInner::process_hopbyhop, super::ipv6::kani_c11_v6::hbh_not_called)]
     fn c11_process_ipv6_filters_dst_unjoined_group() { ipv6_filters_case(3); }
+}
+
+//@@ append src/iface/interface/ipv6.rs
+// C11: a packet that the IPv6 ingress filters must drop never reaches the next-header dispatch (nor, its first next header
+// being UDP or TCP, the hop-by-hop processing): both are replaced by "is not called" in the c11_process_ipv6_filters_* harnesses.
+#[cfg(kani)]
+pub(crate) mod kani_c11_v6 {
+    #![allow(private_interfaces)]
+    use super::*;
+    pub(crate) fn nxt_hdr_not_called<'frame>(_cx: &mut InterfaceInner, _s: &mut SocketSet, _m: PacketMeta, _r: Ipv6Repr, _n: IpProtocol, _h: bool, _p: &'frame [u8]) -> Option<Packet<'frame>> {
+        panic!("C11.ipv6: a packet that must be dropped reached the next-header dispatch")
+    }
+    pub(crate) fn hbh_not_called<'frame>(_cx: &mut InterfaceInner, _r: Ipv6Repr, _p: &'frame [u8]) -> HopByHopResponse<'frame> {
+        panic!("C11.ipv6: hop-by-hop processing is not reached for a UDP/TCP next header")
+    }
 }
